@@ -172,6 +172,7 @@ type Node struct {
 	txs     map[wire.Hash]*massutil.Tx
 	counter uint64
 	mu      sync.Mutex
+	closed  bool
 }
 
 // NewNode creates a node holding only the genesis block.
@@ -211,6 +212,10 @@ func NewNode() (*Node, error) {
 
 // Close releases the node's resources and removes its block files.
 func (n *Node) Close() {
+	if n.closed {
+		return
+	}
+	n.closed = true
 	n.db.Close()
 	os.RemoveAll(n.dir)
 }
